@@ -9,7 +9,7 @@
 (* and at the end of the trace C03 (Covers), C05 (SameVal), C04 (Floor),    *)
 (* C19 (ReportOK) and the tracing half of C09.  Verdicts are total: every   *)
 (* trace ends in a state with v.done and one VERDICT line is printed.       *)
-EXTENDS Analysis, Json, IOUtils, TLCExt     \* Analysis extends PickleVM and Verdict
+EXTENDS Analysis, TotalRel, Json, IOUtils, TLCExt     \* Analysis extends PickleVM and Verdict
 
 T == JsonDeserialize(IOEnv.VERIF_TRACE)
 
@@ -82,14 +82,7 @@ C04Verdict(R) ==
   IF ~R.fick.chk.ok THEN "no-verdict"
   ELSE IF R.fick.chk.sev >= Floor(s.ev) THEN "ok" ELSE "below-floor"
 
-C19Verdict(R) ==
-  IF ~R.fick.dec.ok THEN "refused"
-  ELSE IF ~R.fick.chk.ran THEN "na"
-  ELSE IF ~R.fick.chk.ok THEN "analysis-raised"
-  ELSE IF ~R.fick.chk.find_ok THEN "malformed-finding"
-  ELSE IF ~R.fick.chk.json_ok THEN "report-not-json"
-  ELSE IF ~R.fick.chk.sevname_ok THEN "report-severity-differs"
-  ELSE IF R.fick.chk.loader_ran /\ ~R.fick.chk.loader_ok THEN R.fick.chk.loader_why ELSE "ok"
+C19Verdict(R) == C19Why(R.fick.dec.ok, R.fick.chk)
 
 C09TVerdict(R) ==
   IF ~R.fick.trace.ran THEN "na"
